@@ -175,11 +175,14 @@ def run_real(rig, sc, timeout=40):
         return f
 
     sigs = [(mk_trigger(t * u), SIGNO[name]) for t, name in sc["sigs"]]
-    args = ["--no-fail-fast", "--test-threads", "4"]
+    # --no-tests=pass: a run cancelled before anything finished must still fail (the policy is about an empty selection)
+    args = ["--no-fail-fast", "--test-threads", "4", "--no-tests=pass"]
     if sc.get("no_capture"):
         args.append("--no-capture")   # tests inherit stdout / stderr; timers, groups and signals as usual
+    # direct_spawn: units are spawned without the double-spawn launcher (NEXTEST_DOUBLE_SPAWN=0)
     res = rig.run(puppet_scenario(sc), nextest_config(sc), args=args,
-                  signals=sigs, timeout=timeout, supervise_stop=True)
+                  signals=sigs, timeout=timeout, supervise_stop=True,
+                  env_extra={"NEXTEST_DOUBLE_SPAWN": "0"} if sc.get("direct_spawn") else None)
     return res
 
 
@@ -1006,8 +1009,9 @@ def run_real_life(rig, sc, timeout=60):
         return f
 
     sigs = [(mk_trigger(t * u), SIGNO[name]) for t, name in sc["sigs"]]
-    args = ["--fail-fast" if sc.get("canceller") else "--no-fail-fast", "--test-threads", "4"]
-    return rig.run(life_puppet(sc), life_config(sc), args=args, signals=sigs, timeout=timeout, supervise_stop=True)
+    args = ["--fail-fast" if sc.get("canceller") else "--no-fail-fast", "--test-threads", "4", "--no-tests=pass"]
+    return rig.run(life_puppet(sc), life_config(sc), args=args, signals=sigs, timeout=timeout, supervise_stop=True,
+                   env_extra={"NEXTEST_DOUBLE_SPAWN": "0"} if sc.get("direct_spawn") else None)
 
 
 def observe_life(sc, res):
